@@ -113,7 +113,10 @@ def pop (l : List α) : Option (List α × α) :=
   | some x => some (l.dropLast, x)
 
 /-- `enumerate(l)` -/
-def enumerate (l : List α) : List (Int × α) := ((List.range l.length).zip l).map (fun (p : Nat × α) => ((p.1 : Int), p.2))
+def enumFrom : Int → List α → List (Int × α)
+  | _, [] => []
+  | k, x :: xs => (k, x) :: enumFrom (k + 1) xs
+def enumerate (l : List α) : List (Int × α) := enumFrom 0 l
 
 /-- `zip(a, b)` -/
 def zip (a : List α) (b : List β) : List (α × β) := List.zip a b
@@ -146,6 +149,8 @@ end Dict
 
 /-- `a == v` -/
 def eqMask (a : List Int) (v : Int) : List Bool := a.map (fun x => decide (x = v))
+/-- `a != v` -/
+def neMask (a : List Int) (v : Int) : List Bool := a.map (fun x => decide (x ≠ v))
 /-- `a[mask]` -/
 def select (a : List α) (m : List Bool) : List α := (List.zip a m).filterMap (fun p => if p.2 then some p.1 else none)
 /-- `np.count_nonzero(mask)` -/
